@@ -37,10 +37,30 @@ pub fn dispatch(k: &str, t: &[&str]) -> Option<String> {
                     crate::ingest::raw_val::RawVal::Float(f) => format!("f:{}", f.0.to_bits()), crate::ingest::raw_val::RawVal::Str(s) => format!("s:{}", hex(s.as_bytes())) }).collect::<Vec<_>>().join(",") }),
             })
         }
+        "wal_segment_roundtrip" => {
+            // <id> then the same table tokens as event_buffer_roundtrip; goes through disk_store::wal_segment::WalSegment
+            use crate::disk_store::wal_segment::WalSegment;
+            use std::borrow::Cow;
+            let id: u64 = num(t[0]);
+            let eb = build_event_buffer(&t[1..]);
+            let bytes = WalSegment { id, data: Cow::Borrowed(&eb) }.serialize();
+            let back = WalSegment::deserialize(&bytes).unwrap();
+            Some(format!("{} {}", back.id, print_event_buffer(&back.data)))
+        }
         "event_buffer_roundtrip" => {
-            // token per table: name=col:Kind:...;col:Kind:...   (see vlib/specs/walcodec.py)
-            use locustdb_serialization::event_buffer::{EventBuffer, TableBuffer};
-            use std::collections::HashMap;
+            use locustdb_serialization::event_buffer::EventBuffer;
+            let eb = build_event_buffer(t);
+            let bytes = eb.serialize();
+            let back = EventBuffer::deserialize(&bytes).unwrap();
+            Some(print_event_buffer(&back))
+        }
+        _ => None,
+    }
+}
+
+fn build_event_buffer(t: &[&str]) -> locustdb_serialization::event_buffer::EventBuffer {
+    use locustdb_serialization::event_buffer::{EventBuffer, TableBuffer};
+    use std::collections::HashMap;
             let mut eb = EventBuffer::default();
             for tok in t {
                 let (tname, rest) = tok.split_once('=').unwrap();
@@ -65,8 +85,10 @@ pub fn dispatch(k: &str, t: &[&str]) -> Option<String> {
                 }
                 eb.tables.insert(tname.to_string(), TableBuffer::new(cols));
             }
-            let bytes = eb.serialize();
-            let back = EventBuffer::deserialize(&bytes).unwrap();
+    eb
+}
+
+fn print_event_buffer(back: &locustdb_serialization::event_buffer::EventBuffer) -> String {
             let mut names: Vec<&String> = back.tables.keys().collect();
             names.sort();
             let mut out = vec![];
@@ -86,8 +108,5 @@ pub fn dispatch(k: &str, t: &[&str]) -> Option<String> {
                 }).collect();
                 out.push(format!("{}={}@{}", n, tb.len(), if parts.is_empty() { "-".to_string() } else { parts.join(";") }));
             }
-            Some(out.join(" "))
-        }
-        _ => None,
-    }
+    out.join(" ")
 }
